@@ -71,7 +71,7 @@ pub fn strategies() -> Vec<rle::EncStrategy> {
 
 pub struct C09 {
     shard: Option<(u64, u64)>,
-    cases: Vec<Case>,
+    cases: Vec<Option<Box<Case>>>,
     ambiguous_skipped: u64,
     tier: Tier,
 }
@@ -84,7 +84,7 @@ impl C09 {
 
 /// case list that keeps only the cases of this worker's shard (others become `Skip`)
 struct Sink {
-    v: Vec<Case>,
+    v: Vec<Option<Box<Case>>>,
     shard: Option<(u64, u64)>,
 }
 impl Sink {
@@ -96,10 +96,13 @@ impl Sink {
     }
     fn push(&mut self, c: Case) {
         if self.mine() {
-            self.v.push(c)
+            self.v.push(Some(Box::new(c)))
         } else {
-            self.v.push(Case::Skip)
+            self.v.push(None)
         }
+    }
+    fn skip(&mut self) {
+        self.v.push(None)
     }
 }
 
@@ -200,7 +203,7 @@ fn gen_sequences(w: u16, h: u16, depth: usize, alpha: &[Order], cases: &mut Sink
                     if cases.mine() {
                         cases.push(Case::Rle16 { w, h, orders: cur.clone() })
                     } else {
-                        cases.push(Case::Skip)
+                        cases.skip()
                     }
                 }
                 Decoded::Ambiguous => *amb += 1,
@@ -258,6 +261,10 @@ impl Prop for C09 {
     fn set_shard(&mut self, w: u64, nw: u64) {
         self.shard = Some((w, nw));
     }
+    fn set_parent_mode(&mut self) {
+        // no residue class ever matches: the parent keeps one empty slot per case
+        self.shard = Some((u64::MAX - 1, u64::MAX));
+    }
     fn prepare(&mut self, tier: Tier) -> Result<(), String> {
         self.tier = tier;
         let mut cases = Sink { v: vec![], shard: self.shard };
@@ -266,11 +273,14 @@ impl Prop for C09 {
         let shapes: Vec<(u16, u16, usize)> = if tier == Tier::Quick {
             vec![(1, 1, 3), (2, 1, 3), (1, 2, 3), (2, 2, 3), (3, 1, 3), (3, 2, 3), (2, 3, 3), (6, 1, 2), (1, 6, 3)]
         } else {
-            vec![(1, 1, 4), (2, 1, 4), (1, 2, 4), (2, 2, 4), (3, 1, 4), (3, 2, 4), (2, 3, 4), (6, 1, 3), (1, 6, 4), (4, 2, 3), (2, 4, 3)]
+            vec![(1, 1, 4), (2, 1, 4), (1, 2, 4), (2, 2, 4), (3, 1, 4), (3, 2, 3), (2, 3, 3), (6, 1, 3), (1, 6, 3), (4, 2, 2), (2, 4, 2), (5, 1, 3), (1, 5, 3)]
         };
         for (w, h, d) in shapes {
             let a = alphabet(w as u32 * h as u32, true);
             gen_sequences(w, h, d, &a, &mut cases, &mut amb);
+            if std::env::var("VERIF_DEBUG_COUNTS").is_ok() {
+                eprintln!("C09 shape {}x{} depth {} alphabet {} -> {} cases so far", w, h, d, a.len(), cases.v.len());
+            }
         }
         // larger shapes reach the extended ("MEGA") forms, special FGBG orders and long runs: sequences of <= 2 orders
         for (w, h) in [(8u16, 2u16), (16, 3), (40, 1), (20, 2), (8, 5), (33, 1), (4, 12), (288, 1), (17, 17)] {
@@ -356,7 +366,8 @@ impl Prop for C09 {
         self.cases.len() as u64
     }
     fn describe(&self, idx: u64) -> Value {
-        match &self.cases[idx as usize] {
+        let skip = Case::Skip;
+        match self.cases[idx as usize].as_deref().unwrap_or(&skip) {
             Case::Rle16 { w, h, orders } => json!({"idx": idx, "kind": "rle16", "w": w, "h": h, "orders": orders, "stream_hex": hex(&rle::emit_all(orders))}),
             Case::Planar { w, h, bgra, plane, line, pick, all } => json!({"idx": idx, "kind": "planar32", "w": w, "h": h, "bgra_hex": hex(&bgra[..bgra.len().min(64)]), "plane": plane, "line": line, "segmentation_pick": pick, "all_lines": all}),
             Case::PlanarWide { w, h, bgra, strategy } => json!({"idx": idx, "kind": "planar32-wide", "w": w, "h": h, "bgra_hex": hex(&bgra[..bgra.len().min(64)]), "strategy": strategy}),
@@ -368,7 +379,7 @@ impl Prop for C09 {
         }
     }
     fn rule(&self) -> String {
-        "cases are encodings. [rle16] every sequence of <=3 (<=4 thorough) interleaved-RLE orders over {all 12 order kinds} x {short, extended, mega-mega forms} x {every run length that fits} x palette {0,0xFFFF,0x1234} that the reference decoder maps onto a complete image of the shape (shapes up to 6 px; larger shapes with <=2 orders to reach extended forms / special orders); [planar32] every plane vector over {0,1,7F,80,FF} for shapes up to 2x2/4x1 x every segmentation of every scan line (one line varied at a time, plus all together), and wide lines for the long-run escapes; [rle16-encoded] 14 structured image patterns x 8 sizes up to 64x64 x 10 deterministic strategies of a greedy reference encoder (order kinds allowed, preferred spelling, run-length cap); [raw16]/[raw32] bottom-up uncompressed layouts; [widen565] all 65536 colours. Non-trivial: >=2 orders or a non-default segmentation or >=2 rows.".into()
+        "cases are encodings. [rle16] every sequence of <=3 interleaved-RLE orders (<=4 for shapes up to 4 pixels in thorough) over {all 12 order kinds} x {short, extended, mega-mega forms} x {every run length that fits} x palette {0,0xFFFF,0x1234} that the reference decoder maps onto a complete image of the shape (shapes up to 6 px; larger shapes with <=2 orders to reach extended forms / special orders); [planar32] every plane vector over {0,1,7F,80,FF} for shapes up to 2x2/4x1 x every segmentation of every scan line (one line varied at a time, plus all together), and wide lines for the long-run escapes; [rle16-encoded] 14 structured image patterns x 8 sizes up to 64x64 x 10 deterministic strategies of a greedy reference encoder (order kinds allowed, preferred spelling, run-length cap); [raw16]/[raw32] bottom-up uncompressed layouts; [widen565] all 65536 colours. Non-trivial: >=2 orders or a non-default segmentation or >=2 rows.".into()
     }
     fn assumptions(&self) -> Vec<String> {
         vec![
@@ -379,8 +390,9 @@ impl Prop for C09 {
     }
     fn coverage_extra(&self) -> Value {
         let mut counts = std::collections::BTreeMap::new();
+        let skip = Case::Skip;
         for c in &self.cases {
-            let k = match c {
+            let k = match c.as_deref().unwrap_or(&skip) {
                 Case::Rle16 { .. } => "rle16",
                 Case::Planar { .. } | Case::PlanarWide { .. } => "planar32",
                 Case::Raw16 { .. } => "raw16",
@@ -397,7 +409,10 @@ impl Prop for C09 {
         None
     }
     fn run_case(&mut self, idx: u64) -> Outcome {
-        let c = self.cases[idx as usize].clone();
+        let c = match &self.cases[idx as usize] {
+            Some(c) => (**c).clone(),
+            None => panic!("VERIF: case of another shard executed"),
+        };
         let (w, h, bpp, compress, data, want, nontrivial, kind): (u16, u16, u16, bool, Vec<u8>, Vec<u8>, bool, String) = match c {
             Case::Rle16 { w, h, orders } => {
                 let data = rle::emit_all(&orders);
